@@ -99,11 +99,21 @@ Proof.
   destruct n as [|n]; [discriminate|]. rewrite exec_stmts_S_nil in H0. inv_ok H0. subst. auto.
 Qed.
 
+Lemma empty_do_stmt_run n rho va s :
+  exec_stmt d (S (S (S n))) rho va (SDo (Block [] None)) s = Ok (rho, SigNone) s.
+Proof. rewrite exec_stmt_S_do, exec_block_S, exec_stmts_S_nil. reflexivity. Qed.
+
+Lemma stmts_cont_none m va rest last rho s :
+  stmts_cont d m va rest last (rho, SigNone) s = exec_stmts d m rho va rest last s.
+Proof. reflexivity. Qed.
+
 (** at the head of a statement list the empty [do end] only costs fuel *)
 Theorem empty_do_head_sound : forall n rho va rest last s,
   exec_stmts d (S (S (S (S n)))) rho va (SDo (Block [] None) :: rest) last s =
   exec_stmts d (S (S (S n))) rho va rest last s.
-Proof. reflexivity. Qed.
+Proof.
+  intros. rewrite exec_stmts_S_cons. unfold bind. rewrite empty_do_stmt_run. apply stmts_cont_none.
+Qed.
 
 (** whenever the list with the empty [do end] completes (or fails with a Lua error), so does
     the list without it when it stands first *)
@@ -150,7 +160,7 @@ Theorem method_def_call_sound : forall n a args s1 s2 f rho,
     call_closure d n (effective_params (mkClosure f rho true)) (closure_variadic (mkClosure f rho true))
                  (closure_block (mkClosure f rho true)) rho args s2.
 Proof.
-  intros n a args s1 s2 f rho H1 H2. rewrite !call_S_closure. unfold bind at 1 3. rewrite H1, H2.
+  intros n a args s1 s2 f rho H1 H2. rewrite !call_S_closure. unfold bind. rewrite H1, H2.
   destruct (method_def_closure_sound f rho) as (E1 & E2 & E3 & E4). cbv zeta in *.
   rewrite <- E1, <- E2, <- E3. split; reflexivity.
 Qed.
